@@ -181,7 +181,7 @@ Lemma x_guarded2 : guarded Hid ct0 x_s8 [x_o9; x_o10].
 Proof.
   eapply guarded_cons; [exact x_e9 | |].
   { split; [vm_compute; reflexivity|]. split; [exact x_k9 | intros _; exact x_g9]. }
-  eapply guarded_cons; [exact x_e10 | vm_compute; reflexivity|]. exact I.
+  eapply guarded_cons; [exact x_e10 | left; vm_compute; reflexivity|]. exact I.
 Qed.
 Lemma x_example_replace :
   Inv2 Hid ct0 x_s8 /\ parent x_s8 1 = None /\ detached x_s8 1 = false /\
@@ -240,4 +240,155 @@ Proof.
   split; [vm_compute; reflexivity|]. split; [vm_compute; reflexivity|]. split; [vm_compute; reflexivity|].
   split; [rewrite x_m11_eq; exact x_g11|]. split; [exact x_e11|].
   repeat split; vm_compute; reflexivity.
+Qed.
+
+Lemma x_example_detach_total :
+  Inv2 Hid ct0 x_s3 /\ live x_s3 1 /\ step Hid ct0 x_s3 x_o4 = (x_s4, RBool true).
+Proof. split; [apply x_inv2; simpl; tauto|]. split; [unfold live; vm_compute; lia | exact x_e4]. Qed.
+
+(* ---------- replace_with(None) of a node in an optional single-child field of its parent ---------- *)
+Definition w_o1 := leaf "a"%string.
+Definition w_o2 := inner None (Some 0) [].
+Definition w_o3 := OReplaceWith 0 None.
+Definition w_s1 := Eval vm_compute in fst (step Hid ct0 empty_st w_o1).
+Definition w_s2 := Eval vm_compute in fst (step Hid ct0 w_s1 w_o2).
+Definition w_s3 := Eval vm_compute in fst (step Hid ct0 w_s2 w_o3).
+Lemma w_e1 : step Hid ct0 empty_st w_o1 = (w_s1, RNode 0). Proof. vm_compute; reflexivity. Qed.
+Lemma w_e2 : step Hid ct0 w_s1 w_o2 = (w_s2, RNode 1). Proof. vm_compute; reflexivity. Qed.
+Lemma w_e3 : step Hid ct0 w_s2 w_o3 = (w_s3, RNone). Proof. vm_compute; reflexivity. Qed.
+Lemma w_g1 : new_guard Hid ct0 empty_st w_s1 0.
+Proof.
+  assert (K : skids w_s1 0 = []) by (vm_compute; reflexivity).
+  split; [apply tree_shaped_leaf; exact K|]. split; [apply ids_apart_leaf; exact K|].
+  intros d Hr Hne. rewrite (reach_leaf _ _ _ K Hr) in Hne. contradiction.
+Qed.
+Lemma w_g2 : new_guard Hid ct0 w_s1 w_s2 1.
+Proof.
+  assert (K1 : skids w_s2 1 = [0]) by (vm_compute; reflexivity).
+  assert (K0 : skids w_s2 0 = []) by (vm_compute; reflexivity).
+  split; [apply (tree_shaped_single _ _ _ K1); apply tree_shaped_leaf; exact K0|]. split.
+  - apply (ids_apart_single_leaf _ _ _ _ K1 K0). intros Hp. vm_compute in Hp. discriminate.
+  - intros d Hr Hne Hd. destruct (reach_single _ _ _ _ K1 Hr) as [->|Hr']; [contradiction|].
+    rewrite (reach_leaf _ _ _ K0 Hr') in Hd. vm_compute in Hd. discriminate.
+Qed.
+Lemma w_g3 : step_guard Hid ct0 w_s2 w_o3 w_s3 RNone.
+Proof.
+  right. split; [unfold live; vm_compute; lia|]. split; [vm_compute; reflexivity|].
+  exists 1, (lit "opt"). split; [vm_compute; reflexivity|]. split; [vm_compute; reflexivity|].
+  vm_compute. repeat constructor; simpl; intuition discriminate.
+Qed.
+Lemma w_guarded : guarded Hid ct0 empty_st [w_o1; w_o2; w_o3].
+Proof.
+  eapply guarded_cons; [exact w_e1 | split; [intros k [] | intros _; exact w_g1]|].
+  eapply guarded_cons; [exact w_e2 | split; [|intros _; exact w_g2]|].
+  { intros k [<-|[]]. unfold live. vm_compute. lia. }
+  eapply guarded_cons; [exact w_e3 | exact w_g3 | exact I].
+Qed.
+Lemma w_example_remove :
+  Inv2 Hid ct0 w_s2 /\ live w_s2 0 /\ attached w_s2 0 /\ parent w_s2 0 = Some 1 /\
+  c_pf (cellD w_s2 0) = Some (lit "opt") /\ c_pi (cellD w_s2 0) = None /\
+  NoDup (map fst (c_fs (cellD w_s2 1))) /\
+  step Hid ct0 w_s2 w_o3 = (w_s3, RNone) /\
+  detached w_s3 0 = true /\ skids w_s3 1 = [] /\ c_cid (cellD w_s3 1) <> c_cid (cellD w_s2 1) /\
+  guarded Hid ct0 empty_st [w_o1; w_o2; w_o3].
+Proof.
+  split. { apply (inv2_history_empty Hid ct0 [w_o1; w_o2; w_o3] w_guarded).
+           cbn [trace]. rewrite w_e1. cbn [fst]. rewrite w_e2. simpl. tauto. }
+  split; [unfold live; vm_compute; lia|]. split; [vm_compute; reflexivity|]. split; [vm_compute; reflexivity|].
+  split; [vm_compute; reflexivity|]. split; [vm_compute; reflexivity|].
+  split. { vm_compute. repeat constructor; simpl; intuition discriminate. }
+  split; [exact w_e3|]. split; [vm_compute; reflexivity|]. split; [vm_compute; reflexivity|].
+  split; [vm_compute; discriminate | exact w_guarded].
+Qed.
+
+(* ---------- replace_with(None) of the FIRST element of a tuple field: the sibling's index shifts ---------- *)
+Lemma reach_two s a k1 k2 d : skids s a = [k1; k2] -> reach s a d -> d = a \/ reach s k1 d \/ reach s k2 d.
+Proof.
+  intros Hk Hr. destruct (reach_inv _ _ _ Hr) as [->|[k' [Hin Hr']]]; [left; reflexivity|].
+  rewrite Hk in Hin. destruct Hin as [<-|[<-|[]]]; auto.
+Qed.
+Lemma tree_shaped_two_leaves s a k1 k2 :
+  skids s a = [k1; k2] -> k1 <> k2 -> skids s k1 = [] -> skids s k2 = [] -> tree_shaped s a.
+Proof.
+  intros Ha Hne H1 H2 d Hr. destruct (reach_two _ _ _ _ _ Ha Hr) as [->|[Hr'|Hr']].
+  - rewrite Ha. split.
+    + constructor; [intros [E|[]]; congruence | constructor; [intros [] | constructor]].
+    + intros x1 x2 x [<-|[<-|[]]] [<-|[<-|[]]] Hn R1 R2; try contradiction.
+      * rewrite (reach_leaf _ _ _ H1 R1) in *. rewrite (reach_leaf _ _ _ H2 R2) in Hne. contradiction.
+      * rewrite (reach_leaf _ _ _ H2 R1) in *. rewrite (reach_leaf _ _ _ H1 R2) in Hne. congruence.
+  - rewrite (reach_leaf _ _ _ H1 Hr'). exact (tree_shaped_leaf s k1 H1 k1 (reach_refl _ _)).
+  - rewrite (reach_leaf _ _ _ H2 Hr'). exact (tree_shaped_leaf s k2 H2 k2 (reach_refl _ _)).
+Qed.
+Lemma ids_apart_two_leaves (P : nat -> Prop) s a k1 k2 :
+  skids s a = [k1; k2] -> skids s k1 = [] -> skids s k2 = [] -> ~ P k1 -> ~ P k2 -> ids_apart P s a.
+Proof.
+  intros Ha H1 H2 P1 P2 d d' R1 R2 Hne Hp. exfalso.
+  assert (Hleaf : forall k, (k = k1 \/ k = k2) -> reach s k d' -> d' = k).
+  { intros k [->| ->] Hr; [apply (reach_leaf _ _ _ H1 Hr) | apply (reach_leaf _ _ _ H2 Hr)]. }
+  destruct (reach_two _ _ _ _ _ Ha R1) as [->|[Hr|Hr]].
+  - destruct (reach_two _ _ _ _ _ Ha R2) as [->|[Hr|Hr]]; [contradiction| |].
+    + rewrite (reach_leaf _ _ _ H1 Hr) in Hp. contradiction.
+    + rewrite (reach_leaf _ _ _ H2 Hr) in Hp. contradiction.
+  - rewrite (reach_leaf _ _ _ H1 Hr) in *. rewrite (reach_leaf _ _ _ H1 R2) in Hne. contradiction.
+  - rewrite (reach_leaf _ _ _ H2 Hr) in *. rewrite (reach_leaf _ _ _ H2 R2) in Hne. contradiction.
+Qed.
+
+Definition v_o1 := leaf "a"%string.
+Definition v_o2 := leaf "b"%string.
+Definition v_o3 := inner None None [0; 1].
+Definition v_o4 := OReplaceWith 0 None.
+Definition v_s1 := Eval vm_compute in fst (step Hid ct0 empty_st v_o1).
+Definition v_s2 := Eval vm_compute in fst (step Hid ct0 v_s1 v_o2).
+Definition v_s3 := Eval vm_compute in fst (step Hid ct0 v_s2 v_o3).
+Definition v_s4 := Eval vm_compute in fst (step Hid ct0 v_s3 v_o4).
+Lemma v_e1 : step Hid ct0 empty_st v_o1 = (v_s1, RNode 0). Proof. vm_compute; reflexivity. Qed.
+Lemma v_e2 : step Hid ct0 v_s1 v_o2 = (v_s2, RNode 1). Proof. vm_compute; reflexivity. Qed.
+Lemma v_e3 : step Hid ct0 v_s2 v_o3 = (v_s3, RNode 2). Proof. vm_compute; reflexivity. Qed.
+Lemma v_e4 : step Hid ct0 v_s3 v_o4 = (v_s4, RNone). Proof. vm_compute; reflexivity. Qed.
+Lemma v_gleaf s s' r : skids s' r = [] -> new_guard Hid ct0 s s' r.
+Proof.
+  intros K. split; [apply tree_shaped_leaf; exact K|]. split; [apply ids_apart_leaf; exact K|].
+  intros d Hr Hne. rewrite (reach_leaf _ _ _ K Hr) in Hne. contradiction.
+Qed.
+Lemma v_g3 : new_guard Hid ct0 v_s2 v_s3 2.
+Proof.
+  assert (K2 : skids v_s3 2 = [0; 1]) by (vm_compute; reflexivity).
+  assert (K0 : skids v_s3 0 = []) by (vm_compute; reflexivity).
+  assert (K1 : skids v_s3 1 = []) by (vm_compute; reflexivity).
+  split; [apply (tree_shaped_two_leaves _ _ _ _ K2); [discriminate | exact K0 | exact K1]|]. split.
+  - apply (ids_apart_two_leaves _ _ _ _ _ K2 K0 K1); intros Hp; vm_compute in Hp; discriminate.
+  - intros d Hr Hne Hd. destruct (reach_two _ _ _ _ _ K2 Hr) as [->|[Hr'|Hr']]; [contradiction| |].
+    + rewrite (reach_leaf _ _ _ K0 Hr') in Hd. vm_compute in Hd. discriminate.
+    + rewrite (reach_leaf _ _ _ K1 Hr') in Hd. vm_compute in Hd. discriminate.
+Qed.
+Lemma v_g4 : step_guard Hid ct0 v_s3 v_o4 v_s4 RNone.
+Proof.
+  right. split; [unfold live; vm_compute; lia|]. split; [vm_compute; reflexivity|].
+  exists 2, (lit "tup"). split; [vm_compute; reflexivity|]. split; [vm_compute; reflexivity|].
+  vm_compute. repeat constructor; simpl; intuition discriminate.
+Qed.
+Lemma v_guarded : guarded Hid ct0 empty_st [v_o1; v_o2; v_o3; v_o4].
+Proof.
+  eapply guarded_cons; [exact v_e1 | split; [intros k [] | intros _; apply v_gleaf; vm_compute; reflexivity]|].
+  eapply guarded_cons; [exact v_e2 | split; [intros k [] | intros _; apply v_gleaf; vm_compute; reflexivity]|].
+  eapply guarded_cons; [exact v_e3 | split; [|intros _; exact v_g3]|].
+  { intros k [<-|[<-|[]]]; unfold live; vm_compute; lia. }
+  eapply guarded_cons; [exact v_e4 | exact v_g4 | exact I].
+Qed.
+Lemma v_example_remove_seq :
+  Inv2 Hid ct0 v_s3 /\ live v_s3 0 /\ attached v_s3 0 /\ parent v_s3 0 = Some 2 /\
+  c_pf (cellD v_s3 0) = Some (lit "tup") /\ c_pi (cellD v_s3 0) = Some 0 /\ c_pi (cellD v_s3 1) = Some 1 /\
+  NoDup (map fst (c_fs (cellD v_s3 2))) /\
+  step Hid ct0 v_s3 v_o4 = (v_s4, RNone) /\
+  detached v_s4 0 = true /\ skids v_s4 2 = [1] /\ c_pi (cellD v_s4 1) = Some 0 /\
+  c_cid (cellD v_s4 2) <> c_cid (cellD v_s3 2) /\
+  guarded Hid ct0 empty_st [v_o1; v_o2; v_o3; v_o4].
+Proof.
+  split. { apply (inv2_history_empty Hid ct0 [v_o1; v_o2; v_o3; v_o4] v_guarded).
+           cbn [trace]. rewrite v_e1. cbn [fst]. rewrite v_e2. cbn [fst]. rewrite v_e3. simpl. tauto. }
+  split; [unfold live; vm_compute; lia|]. split; [vm_compute; reflexivity|]. split; [vm_compute; reflexivity|].
+  split; [vm_compute; reflexivity|]. split; [vm_compute; reflexivity|]. split; [vm_compute; reflexivity|].
+  split. { vm_compute. repeat constructor; simpl; intuition discriminate. }
+  split; [exact v_e4|]. split; [vm_compute; reflexivity|]. split; [vm_compute; reflexivity|].
+  split; [vm_compute; reflexivity|]. split; [vm_compute; discriminate | exact v_guarded].
 Qed.
